@@ -415,6 +415,9 @@ func (o OutSpec) command() string {
 		return fmt.Sprintf("{ head -c %d /dev/zero | tr '\\0' 'a' | sed 's/a/ü/g'; }%s", o.N, redir)
 	case "both":
 		return fmt.Sprintf("printf '%%s' '%s-o1'; printf '%%s' '%s-e1' 1>&2; printf '%%s' '%s-o2'", o.Text, o.Text, o.Text)
+	case "parallel":
+		// several processes of one command write to the same stream at once
+		return fmt.Sprintf("{ head -c %d /dev/zero | tr '\\0' 'x' & head -c %d /dev/zero | tr '\\0' 'y' & head -c %d /dev/zero | tr '\\0' 'z' & wait; }%s", o.N, o.N, o.N, redir)
 	}
 	return "true"
 }
@@ -432,6 +435,9 @@ func (o OutSpec) written() (stdout, stderr string) {
 		s = strings.Repeat("ü", o.N)
 	case "both":
 		return o.Text + "-o1" + o.Text + "-o2", o.Text + "-e1"
+	case "parallel":
+		// the order in which the three writers' bytes arrive is not determined: the oracle compares sorted bytes
+		s = strings.Repeat("x", o.N) + strings.Repeat("y", o.N) + strings.Repeat("z", o.N)
 	default:
 		return "", ""
 	}
@@ -445,7 +451,8 @@ func generateOutputScenario(g gen, sc *Scenario) {
 	np := 1 + g.n(2)
 	var ds DefSet
 	sc.Outputs = map[string][]OutSpec{}
-	odd := []string{"a", "b", "c", "with space", "d.e", "f-g_h", "ü"}
+	// (several of these differ only in characters a careless file-name sanitiser would fold together)
+	odd := []string{"a", "b", "with space", "with_space", "with:space", "d.e", "d_e", "f-g_h", "ü", "u"}
 	for i := 0; i < np; i++ {
 		p := PipeS{Name: pipeNames[i], Concurrency: 1 + g.n(3)}
 		nt := 1 + g.n(4)
@@ -465,13 +472,15 @@ func generateOutputScenario(g gen, sc *Scenario) {
 				case 0:
 					o.Kind = "empty"
 				case 1, 2:
-					o.Kind, o.N, o.Ch = "fill", []int{1, 4095, 4096, 65536, 70001, 1 << 20, 4 << 20}[g.n(7)], string(rune('a'+g.n(26)))
+					o.Kind, o.N, o.Ch = "fill", []int{1, 4095, 4096, 65536, 70001, 1 << 20, 4 << 20}[g.n(7)], string(rune('a'+g.n(23)))
 				case 3:
 					o.Kind, o.N = "wide", []int{10, 16383, 16384, 20000}[g.n(4)]
 				case 4:
 					o.Kind = "lines"
 				case 5:
 					o.Kind = "both"
+				case 6:
+					o.Kind, o.N = "parallel", []int{1000, 70000, 300000}[g.n(3)]
 				default:
 					o.Kind = "text"
 				}
@@ -522,7 +531,7 @@ func (m *monState) checkOutputLogs() {
 				}
 				b, _ := io.ReadAll(rd)
 				rd.Close()
-				if string(b) != want {
+				if normParallel(string(b)) != normParallel(want) {
 					run.violate("C19", "r1", "job %s task %q: the log store holds %d bytes of %s, the commands wrote %d (%s)", name, ts.Name, len(b), stream, len(want), firstDiff(string(b), want))
 				}
 			}
@@ -538,7 +547,7 @@ func (m *monState) checkOutputLogs() {
 				}
 				if rec.Code != http.StatusOK || json.Unmarshal(rec.Body.Bytes(), &body) != nil {
 					run.violate("C19", "r2", "job %s task %q: GET /job/logs answered %d", name, ts.Name, rec.Code)
-				} else if body.Stdout != wantOut || body.Stderr != wantErr {
+				} else if normParallel(body.Stdout) != normParallel(wantOut) || normParallel(body.Stderr) != normParallel(wantErr) {
 					run.violate("C19", "r2", "job %s task %q: GET /job/logs returns %d/%d bytes (stdout/stderr), the commands wrote %d/%d (%s)", name, ts.Name, len(body.Stdout), len(body.Stderr), len(wantOut), len(wantErr), firstDiff(body.Stdout+"|"+body.Stderr, wantOut+"|"+wantErr))
 				}
 				run.probe("log_api_checked")
@@ -569,6 +578,34 @@ func (m *monState) checkOutputLogs() {
 			run.violate("C19", "r4", "the log store contains %s, which belongs to no job", path)
 		}
 	}
+}
+
+// normParallel sorts every maximal run of the letters x, y, z (what the "parallel" commands write
+// concurrently, in an order the kernel decides) so that only the byte counts of such runs matter.
+func normParallel(s string) string {
+	b := []byte(s)
+	i := 0
+	for i < len(b) {
+		if b[i] != 'x' && b[i] != 'y' && b[i] != 'z' {
+			i++
+			continue
+		}
+		j := i
+		var n [3]int
+		for j < len(b) && (b[j] == 'x' || b[j] == 'y' || b[j] == 'z') {
+			n[b[j]-'x']++
+			j++
+		}
+		k := i
+		for c := 0; c < 3; c++ {
+			for m := 0; m < n[c]; m++ {
+				b[k] = byte('x' + c)
+				k++
+			}
+		}
+		i = j
+	}
+	return string(b)
 }
 
 func firstDiff(got, want string) string {
